@@ -370,16 +370,28 @@ def _exc_chain(e):
     return chain
 
 
-def instrument(d, stack, events, block):
-    """instance-level wrappers (no source hooks): transport read/write, channel operations and read loops"""
+def instrument(d, stack, events, block, read_fault=None):
+    """instance-level wrappers (no source hooks): transport read/write, channel operations and read loops.
+    read_fault {"after_write": k, "times": n}: the n (default 1) reads that follow the k-th transport write (1-based)
+    raise the EOF ScrapliConnectionError the telnet / system transports raise, then the stream goes on"""
     from .simdevice import Starved
     t = d.transport
     ch = d.channel
     is_async = stack != "sync"
     raw_read, raw_write = t.read, t.write
+    rf = {"n": 0, "armed": 0}
+
+    def eof_now():
+        if rf["armed"] <= 0:
+            return
+        rf["armed"] -= 1
+        from scrapli.exceptions import ScrapliConnectionError
+        events.append(("tread_exc", "ScrapliConnectionError"))
+        raise ScrapliConnectionError("encountered EOF reading from transport; typically means the device closed the connection")
 
     if is_async:
         async def tread():
+            eof_now()
             try:
                 b = await raw_read()
             except Starved:
@@ -399,6 +411,7 @@ def instrument(d, stack, events, block):
             return b
     else:
         def tread():
+            eof_now()
             try:
                 b = raw_read()
             except Starved:
@@ -419,6 +432,9 @@ def instrument(d, stack, events, block):
 
     def twrite(channel_input):
         events.append(("twrite", bytes(channel_input)))
+        rf["n"] += 1
+        if read_fault and rf["n"] == read_fault.get("after_write"):
+            rf["armed"] = int(read_fault.get("times", 1))
         try:
             return raw_write(channel_input)
         except BaseException as e:
@@ -501,12 +517,64 @@ def reset_logging():
 # ------------------------------------------------------------------------------------------------
 # scenarios
 # ------------------------------------------------------------------------------------------------
+def priv_device(spec, **kw):
+    """a two-level device of a vendor scrapli has no platform for (what a user writes privilege_levels for): own mode
+    names, own escalation / de-escalation commands, own prompt endings and its OWN way of asking for the secret —
+    `ask` is what it prints when the escalation command needs the secret ("{prompt}" = its current prompt: a device
+    that says so and shows its prompt again, reading the next line without echo).  Same causal line discipline as
+    SimDevice (subclass: only the vendor table and the wording of the password dialogue differ)."""
+    from .simdevice import SimDevice
+
+    class PrivDevice(SimDevice):
+        def _ask(self):
+            return self.ask.replace("{prompt}", self.prompt().decode("latin-1")).encode("latin-1")
+
+        def _return(self):
+            if self.dialog is None:
+                raw = bytes(self.line)
+                act = self._table().get(raw.decode("latin-1").strip())
+                if act is not None and act[0] == "auth" and self.secret is not None:
+                    self.line = bytearray()
+                    self.log.append((self.mode, raw, b""))
+                    self.dialog = (act[1], 1)
+                    self._emit(self.nl + self._ask())
+                    return
+                return SimDevice._return(self)
+            raw = bytes(self.line)
+            self.line = bytearray()
+            target, attempts = self.dialog
+            self.hidden_lines.append(raw)
+            self._emit(self.nl)
+            if raw.decode("latin-1") == self.secret:
+                self.dialog = None
+                self.mode = target
+                self._emit(self.prompt())
+            elif attempts >= 3:
+                self.dialog = None
+                self._emit(b"% Access denied" + self.nl + self.nl + self.prompt())
+            else:
+                self.dialog = (target, attempts + 1)
+                self._emit(self._ask())
+
+    low, high = spec["low"], spec["high"]
+    d = PrivDevice("cisco_iosxe", login_mode=low, **kw)
+    d.ask = spec["ask"]
+    d.t = {"login_modes": [low, high],
+           "prompt": lambda dd, m: dd.host + (spec["low_end"] if m == low else spec["high_end"]),
+           "trans": {low: {spec["escalate"]: ("auth", high)}, high: {spec["deescalate"]: ("goto", low)}},
+           "invalid": "% Unrecognized command", "submodes": [""]}
+    return d
+
+
 def make_device(sc):
     from .simdevice import SimDevice
     dv = sc["device"]
     outputs = {k: v.encode() for k, v in sc.get("outputs", {}).items()}
-    inner = SimDevice(dv["platform"], login_mode=dv.get("login_mode"), secret=dv.get("enable_secret"),
-                      outputs=outputs, host=dv.get("host", "router1"))
+    if dv.get("custom"):
+        inner = priv_device(dv["custom"], secret=dv.get("enable_secret"), outputs=outputs, host=dv.get("host", "router1"))
+    else:
+        inner = SimDevice(dv["platform"], login_mode=dv.get("login_mode"), secret=dv.get("enable_secret"),
+                          outputs=outputs, host=dv.get("host", "router1"))
     front = dv.get("front")
     if front == "telnet":
         return TelnetLogin(inner, dv["user"], dv["password"], ask_user=dv.get("ask_user", True)), inner
@@ -552,6 +620,12 @@ def run_scenario(sc, workdir):
         kw["timeout_ops"] = TIMEOUT_OPS
     chanlog = _ChanLog(events)
     kw["channel_log"] = chanlog
+    if sc.get("privilege_levels"):
+        # the USER's own privilege levels (scenario: plain dicts; handed to the driver as PrivilegeLevel objects)
+        from scrapli.driver.network.base_driver import PrivilegeLevel
+        pl = sc["privilege_levels"]
+        kw["privilege_levels"] = {name: PrivilegeLevel(name=name, **dict(lv)) for name, lv in pl["levels"].items()}
+        kw["default_desired_privilege_level"] = pl["default"]
     obs = {"exceptions": [], "reprs": [], "results": [], "responses": [], "repr_points": []}
     r = Runner(stack)
     d = None
@@ -588,7 +662,7 @@ def run_scenario(sc, workdir):
             d = make_driver(sc["kind"], stack, dev, tuple(sc.get("policy", ["whole"])), sc.get("fault"), **kw)
         if d is None:
             raise _NotConstructed()
-        instrument(d, stack, events, block)
+        instrument(d, stack, events, block, sc.get("read_fault"))
         # the configuration the user gave (model/Secrets.v [conf]): what repr() / str() of the driver may show, at ANY
         # point of its life cycle, is decided from this — taken before the first operation
         # — and, for an attribute the user REASSIGNS on the existing driver (op `set_attr`), from the value assigned
@@ -1080,6 +1154,11 @@ def build_case(label, a, kw, evs, exc, exc_text, items, sc):
         priv = arg("escalate_priv", 0)
         if not getattr(priv, "escalate_auth", False):
             return None
+        if not priv.escalate_prompt:
+            # a user-defined level WITHOUT an escalate prompt: m_escalate's first event always has an expected response
+            # (read back the input, then to that response) — oracle-only at this level; the send_inputs_interact the
+            # driver makes of it is a model case of its own (OpInteract with the events and hidden flags as handed over)
+            return None
         s2 = sc.get("driver_kwargs", {}).get("auth_secondary", "")
         for ev in evs:
             if ev[0] == "attr_now" and ev[1] == "auth_secondary":
@@ -1131,8 +1210,9 @@ def build_case(label, a, kw, evs, exc, exc_text, items, sc):
                 hist.append(["T"])
             elif ev[1] == "ScrapliConnectionError":
                 hist.append(["C"])
-                if label == "channel_authenticate_telnet":
+                if label == "channel_authenticate_telnet" and not sc.get("read_fault"):
                     return None     # the login loop retries forever on a dead transport: outside the scenarios
+                #                     (a TRANSIENT EOF — scenario field read_fault — is m_login_telnet's RConnErr step)
             else:
                 return None
             last_read = None
@@ -1274,6 +1354,76 @@ def sc_escalate(rng, kind, stack, mode, policy=None, timeout=False, fault=None, 
             "secrets": {"secondary": sec2 if mode != "empty" else "", "password": None, "passphrase": None},
             "outputs": {cmd: out}, "publics": [cmd, out, "labuser", "enable"], "ops": ops,
             "timeout": timeout, "fault": fault}
+
+
+# user-defined privilege levels: (low name, high name), (escalate, deescalate) commands, prompt endings
+PRIV_NAMES = [("user_view", "system_view"), ("guest", "admin"), ("exec", "privilege_exec"), ("operator", "level15")]
+PRIV_CMDS = [("super", "quit"), ("enable 15", "disable"), ("system-view", "return"), ("enable", "disable")]
+# how the device asks for the secret / what the user declares as escalate_prompt
+#   literal: the device's own wording, declared literally;  regex: declared as a ^...$ pattern;
+#   empty: NO escalate_prompt declared (the device says a secret is required and shows its prompt again, then reads the
+#          next line without echo: the first event is read to the class prompt pattern)
+PRIV_ASKS = {"literal": [("Enter secret for level 15: ", "Enter secret for level 15:"), ("admin password: ", "admin password:"),
+                         ("Password: ", "Password:")],
+             "regex": [("Secret (level 15): ", r"^secret \(level \d+\):\s?$"), ("Password: ", r"^(?:enable\s){0,1}password:\s?$")],
+             "empty": [("% secret required\r\n{prompt}", ""), ("{prompt}", "")]}
+PRIV_PROMPT_KINDS = ["literal", "regex", "empty"]
+
+
+def sc_escalate_custom(rng, stack, mode, prompt_kind, policy=None, timeout=False):
+    """the enable escalation of a NetworkDriver with USER-SUPPLIED privilege_levels (custom names, commands, prompt
+    patterns; escalate_auth=True with a custom / a regex / an EMPTY escalate_prompt) against a device that asks the way
+    the user's levels say.  mode as sc_escalate; with an empty escalate_prompt only `good` (the code cannot tell that
+    device's challenge from its prompt: a refused or unasked secret there is typed at the prompt — outside the scenarios)"""
+    if prompt_kind == "empty":
+        mode, timeout = "good", False
+    sc = sc_escalate(rng, "network", stack, mode, policy=policy, timeout=timeout)
+    (low, high), (esc, deesc) = rng.choice(PRIV_NAMES), rng.choice(PRIV_CMDS)
+    low_end, high_end = rng.choice([(">", "#"), ("$", "#"), (">", "%")])
+    ask, eprompt = rng.choice(PRIV_ASKS[prompt_kind])
+    pat = lambda end: r"^[a-z0-9.\-@()/:]{1,48}%s$" % ("\\" + end if end == "$" else end)
+    sc["privilege_levels"] = {"default": high, "levels": {
+        low: {"pattern": pat(low_end), "previous_priv": "", "deescalate": "", "escalate": "", "escalate_auth": False,
+              "escalate_prompt": ""},
+        high: {"pattern": pat(high_end), "previous_priv": low, "deescalate": deesc, "escalate": esc, "escalate_auth": True,
+               "escalate_prompt": eprompt}}}
+    sc["device"] = {"platform": "cisco_iosxe", "enable_secret": sc["device"]["enable_secret"],
+                    "custom": {"low": low, "high": high, "escalate": esc, "deescalate": deesc, "low_end": low_end,
+                               "high_end": high_end, "ask": ask}}
+    sc["mode"] = "custom-%s-%s" % (prompt_kind, sc["mode"])
+    # (level names / de-escalation command stay outside the public atoms: they are words of repr(driver) and of the
+    #  escalation-failure message, which the model cases compare atom by atom)
+    sc["publics"] = [x for x in sc["publics"] if x != "enable"] + [esc] + ([eprompt] if eprompt else [])
+    return sc
+
+
+def telnet_read_faults(rng, sc, obs, every):
+    """the same telnet login with the transport read raising the EOF connection error (the one the login loop
+    tolerates) right after the write that carried the password, right after the one that carried the user name, and
+    after one other write (all others when `every`).  Off the password write the run is delivered `whole`: with the
+    stream fragmented the extra return can overtake a prompt still unread, and the device would echo what follows."""
+    secs = [v for v in all_secrets(sc).values() if v]
+    user = sc["driver_kwargs"].get("auth_username", "")
+    writes = [e[1] for e in obs["events"] if e[0] == "twrite"]
+    hot = [i + 1 for i, w in enumerate(writes) if any(occurs(v, as_text(w)) for v in secs)]
+    named = [i + 1 for i, w in enumerate(writes) if user and as_text(w) == user][:1]
+    # (only writes that a read follows)
+    pos = [i for i, e in enumerate(obs["events"]) if e[0] == "twrite"]
+    last_read = max([i for i, e in enumerate(obs["events"]) if e[0] == "tread"] or [-1])
+    follow = {n + 1 for n, i in enumerate(pos) if i < last_read}
+    hot, named = [k for k in hot if k in follow], [k for k in named if k in follow]
+    cold = [k for k in sorted(follow) if k not in hot and k not in named]
+    if not every and cold:
+        cold = [rng.choice(cold)]
+    out = []
+    for k in hot + named + cold:
+        f = dict(sc, read_fault={"after_write": k, "times": 1},
+                 mode=sc["mode"].split("+")[0] + ("+eof-after-password" if k in hot else "+eof-after-username" if k in named else "+eof-read"))
+        if k not in hot:
+            f["policy"] = ["whole"]
+        f.pop("finding", None)
+        out.append(f)
+    return out
 
 
 def sc_junos_root(rng, stack, mode):
@@ -1947,6 +2097,11 @@ def corpus(rng):
         out.append(sc_escalate(rng, "arista_eos", stack, "empty", policy=["bytes", 3]))
         out.append(sc_junos_root(rng, stack, "good"))
         out.append(sc_junos_root(rng, stack, "none"))
+        # user-supplied privilege levels: escalate_auth with a custom literal / regex / EMPTY escalate_prompt
+        for pk in PRIV_PROMPT_KINDS:
+            out.append(sc_escalate_custom(rng, stack, "good", pk, policy=["whole"]))
+        out.append(sc_escalate_custom(rng, stack, "bad", "literal", policy=["whole"]))
+        out.append(sc_escalate_custom(rng, stack, "none", "regex", policy=["bytes", 3]))
         out.append(sc_interact(rng, stack, "good", True))
         out.append(sc_interact(rng, stack, "none", True))
         out.append(sc_interact(rng, stack, "bad", False))
@@ -1993,6 +2148,10 @@ def gen_scenario(rng, with_rt=False):
         # the asyncio logins sleep per loop iteration: fewer of them
         tname = rng.choice(["system", "system", "telnet", "paramiko", "paramiko", "asynctelnet", "asyncssh"])
         return sc_rt(rng, tname, rng.choice(RT_KINDS))
+    if fam == "escalate" and rng.random() < 0.2:
+        mode = rng.choice(["good", "good", "bad", "none"])
+        # (the timeout variants wait timeout_ops of real time each: thorough tier only)
+        return sc_escalate_custom(rng, stack, mode, rng.choice(PRIV_PROMPT_KINDS), timeout=(with_rt and mode == "bad" and rng.random() < 0.15))
     if fam == "escalate":
         mode = rng.choice(["good", "good", "bad", "none", "none", "empty"])
         sc = sc_escalate(rng, rng.choice(ENABLE_PLATFORMS), stack, mode, timeout=(mode == "bad" and rng.random() < 0.15))
@@ -2128,7 +2287,9 @@ def run(rep):
     n_mal = 400 if thorough else 30
     if rep.broken:
         n_gen *= 2      # an obligation broke: widen the search for a concrete leaking input
-    scenarios = corpus(rng) + [gen_scenario(rng, with_rt=thorough) for _ in range(n_gen)] + [gen_malformed(rng) for _ in range(n_mal)]
+    scenarios = corpus(rng)
+    corpus_ids = {id(x) for x in scenarios}
+    scenarios = scenarios + [gen_scenario(rng, with_rt=thorough) for _ in range(n_gen)] + [gen_malformed(rng) for _ in range(n_mal)]
     # library-authenticated transports: own stream (derived from rep.rng after the streams above, which stay what they were)
     lrng = random.Random(rng.getrandbits(64))
     scenarios += corpus_libauth(lrng) + [gen_libauth(lrng) for _ in range(400 if thorough else 16)]
@@ -2157,7 +2318,8 @@ def run(rep):
             "secret_len": {}, "metachar_secrets": 0, "writes_redacted": 0, "writes_shown": 0, "flag_hits": {},
             "responses": {}, "response_probes": {}, "write_faults": {}, "real_transport": {}, "library_auth": {},
             "transport_options": {}, "driver_repr_at": {}, "reassigned": {}, "rotate": {}, "event_shapes": {},
-            "factory": {}, "factory_records": {}, "log_level": {}, "unencodable": {}}
+            "factory": {}, "factory_records": {}, "log_level": {}, "unencodable": {},
+            "read_faults": {}, "custom_privilege_levels": {}}
     terms, term_src = [], []
     resp_terms = set()
     nviol = 0
@@ -2252,6 +2414,29 @@ def run(rep):
             dist["write_faults"][key] = dist["write_faults"].get(key, 0) + 1
         if sc["family"] == "rt" and not sc.get("fault") and not sc.get("finding"):
             scenarios.extend(rt_faults(rng, sc, obs, thorough))
+        if sc["family"] == "login_telnet" and not sc.get("read_fault") and not sc.get("timeout") and not sc.get("finding"):
+            # the same login with the read raising the tolerated EOF right after the password / the user name was written
+            derived = telnet_read_faults(rng, sc, obs, thorough)
+            if not thorough and id(sc) not in corpus_ids:
+                # quick tier, random stream: the EOF after the password only (the asyncio login sleeps after every EOF: sync only)
+                derived = derived[:1] if sc["stack"] == "sync" else []
+            elif not thorough and sc["stack"] != "sync":
+                derived = derived[:1]
+            scenarios.extend(derived)
+        if sc.get("read_fault"):
+            hit = sum(1 for e in obs["events"] if e[0] == "tread_exc" and e[1] == "ScrapliConnectionError")
+            retyped = sum(1 for e in obs["events"] if e[0] == "twrite" and any(occurs(v, as_text(e[1])) for v in all_secrets(sc).values()))
+            key = "%s %s -> %s, secret-carrying writes %d" % (sc["mode"], sc["stack"], "eof raised" if hit else "NOT REACHED", retyped)
+            dist["read_faults"][key] = dist["read_faults"].get(key, 0) + 1
+            if not hit:
+                rep.broken.append("harness: read-fault scenario %d (%s %s): the EOF was never raised" % (si, sc["mode"], sc["stack"]))
+        if sc.get("privilege_levels"):
+            typed = any(any(occurs(v, as_text(h)) for v in all_secrets(sc).values()) for h in obs["hidden_lines"])
+            key = "%s %s -> %s%s" % (sc["mode"], sc["stack"], ",".join(e["chain"][0]["cls"] for e in obs["exceptions"]) or "no exception",
+                                     " (secret typed into the device's dialogue)" if typed else "")
+            dist["custom_privilege_levels"][key] = dist["custom_privilege_levels"].get(key, 0) + 1
+            if "-good" in sc["mode"] and "+" not in sc["mode"] and not typed:
+                rep.broken.append("harness: custom privilege level scenario %d (%s %s): the secret was never typed" % (si, sc["mode"], sc["stack"]))
         secs = all_secrets(sc)
         for v in secs.values():
             b = min(len(v) // 8 * 8, 64)
@@ -2360,7 +2545,9 @@ def run(rep):
                 "logging at debug / info / warning / error / critical; missing / broken platform definitions, unknown variant; "
                 "credentials utf-8 cannot encode — lone low / high surrogates, reversed pairs, next to multi-byte characters — as telnet / "
                 "ssh login password, key passphrase, enable / junos root-shell secret, hidden interactive input, sync and asyncio, the "
-                "user logging at debug / info / warning) + seeded scenarios + "
+                "user logging at debug / info / warning; NetworkDriver with USER-SUPPLIED privilege_levels — custom names, commands, "
+                "patterns, escalate_auth with a literal / regex / EMPTY escalate_prompt — against a device asking in that wording; "
+                "telnet logins with a TRANSIENT EOF read error right after the password / the user name / another write) + seeded scenarios + "
                 "a malformed stream (all-metacharacter / very long / format-looking secrets, truthy non-bool hidden flag); "
                 "every Response / MultiResponse handed to the user is probed with str(), raise_for_status() and (no hidden input) repr(); "
                 "every repr()/str() of a driver is one model case (OpRepr / OpStr of the configuration given at construction); "
@@ -2506,7 +2693,19 @@ MANIFEST = {
             "repr/str of driver / channel / transport, str() of the whole exception chain); a canary is recognised in str form, "
             "as \\udcXX escapes (repr / ascii / backslashreplace), as the bytes surrogateescape / surrogatepass / replace / ignore / "
             "xmlcharrefreplace produce (raw and as a bytes repr). The check fails closed when such a credential neither reaches "
-            "a write nor is refused with a UnicodeError.",
+            "a write nor is refused with a UnicodeError. "
+            "USER-SUPPLIED privilege_levels (family escalate, modes custom-*): a NetworkDriver / AsyncNetworkDriver whose two "
+            "levels the user wrote — own level names, escalation / de-escalation commands, prompt endings and patterns — with "
+            "escalate_auth=True and an escalate_prompt that is the device's own wording (literal), a ^...$ pattern, or EMPTY, "
+            "against a device of that vendor table which asks for the secret in exactly that wording (empty prompt: it says a "
+            "secret is required / nothing and shows its prompt again, then reads a line without echo); accepted, refused "
+            "(blocking read; timeout in the thorough tier) and unasked secrets, every chunking, both stacks; the check fails "
+            "closed when the accepted secret never reaches the device's dialogue. TRANSIENT EOF in the telnet login (scenario "
+            "field read_fault, derived from each fault-free login_telnet run): the transport read raises the EOF "
+            "ScrapliConnectionError the login loop tolerates right after the write that carried the password, right after "
+            "the one that carried the user name, and after another write (login and command phase), then the stream goes on — "
+            "accepted, rejected and password-only logins, sync and asyncio (quick tier: all three points for the corpus "
+            "logins, the EOF after the password for the random sync ones); fails closed when the EOF is never raised.",
     "note": "Trusted: Coq kernel + vm_compute; the hand model coq/model/Secrets.v (tied to the code by running every channel operation "
             "of every scenario through the model on the history observed at the transport: same write records REDACTED-or-shown, reads, "
             "channel log, exception class; other records compared as sets of data items); gen/gen_sinks.py (identifier-level value flow "
@@ -2557,6 +2756,18 @@ MANIFEST = {
             "restored afterwards (fail-closed if the plugin no longer has these names); the library exceptions they raise carry the "
             "messages the real libraries use, never a credential. The loopback scenarios run the real paramiko / asyncssh clients "
             "against asyncssh servers on 127.0.0.1 (an echo shell, no device: authentication outcome, repr, close only). "
+            "Custom privilege levels: OpEscalate is a model case for a non-empty escalate_prompt (whatever its wording; level "
+            "names and the de-escalation command are not atoms); with an EMPTY escalate_prompt the _escalate call itself is "
+            "ORACLE-ONLY (m_escalate's first event always has an expected response), the send_inputs_interact it makes is still "
+            "a model case (OpInteract with the events and hidden flags as the driver handed them over, expected response '' = "
+            "read to the class prompt); empty prompt + a device that refuses / does not ask for the secret is outside the "
+            "scenarios (the code cannot tell that challenge from the prompt and types the secret at the prompt — not explored, "
+            "not listed as a finding). The device of these scenarios is harness/c12.py priv_device (SimDevice subclass: vendor "
+            "table and wording of the dialogue replaced). Transient EOF: injected by the read wrapper of instrument() on any "
+            "transport (the scripted one here), one read; the login is the model's m_login_telnet RConnErr step (a return, "
+            "then on) — model case kept for channel_authenticate_telnet when the scenario has a read_fault, still skipped for a "
+            "transport that stays dead; off the password write these runs are delivered whole (fragmented, the extra return "
+            "can overtake an unread prompt and the device echoes what is typed next: device behaviour, outside the hypothesis). "
             "ORACLE-ONLY as well: family unencodable — the model's secrets are atoms, it has no encoding step: on the unchanged "
             "tree BaseChannel.write (logins; after its `write: REDACTED` record) resp. send_inputs_interact (hidden inputs and "
             "_escalate; before any write) end with the BUILT-IN UnicodeEncodeError of str.encode(), an exception class outside "
